@@ -21,6 +21,24 @@ def wrap_vector(v, tracer=False):
         {"cls": "echo", "name": "ECHO", "args": [tok("str", "t2")]}]}]}
 
 
+def big_requests():
+    """Requests with far more elements than any buffer or pre-sized slice the server may use (one reply each, nothing left over)."""
+    out = []
+    ks = [tok("key", "k1"), tok("key", "k2"), tok("key", "m1"), tok("key", "f1")]
+    vs = [tok("str", "v1"), tok("str", "v2")]
+    for n in (1022, 1023, 1024, 1025, 1600, 4100):
+        out.append({"st": "well", "name": "DEL", "args": [ks[i % 4] for i in range(n)]})
+    for n in (511, 512, 513, 1100):
+        out.append({"st": "well", "name": "MSET", "args": [x for i in range(n) for x in (ks[i % 4], vs[i % 2])]})
+    for n in (1023, 1024, 1500):
+        out.append({"st": "well", "name": "RPUSH", "args": [ks[0]] + [vs[i % 2] for i in range(n)]})
+        out.append({"st": "well", "name": "SADD", "args": [ks[0]] + [vs[i % 2] for i in range(n)]})
+    out.append({"st": "well", "name": "HMSET", "args": [ks[0]] + [x for i in range(700) for x in (ks[i % 4], vs[i % 2])]})
+    out.append({"st": "well", "name": "MGET", "args": [ks[i % 4] for i in range(1300)]})
+    out.append({"st": "ill", "name": "GET", "args": [ks[i % 4] for i in range(1300)]})
+    return out
+
+
 def run(ctx):
     P = THOROUGH if ctx.tier == "thorough" else QUICK
     ctx.build()
@@ -35,6 +53,7 @@ def run(ctx):
         vecs = [json.loads(s) for s in cmds.scenarios]
         scenarios += [wrap_vector(v) for v in vecs]
         ncmds = len(vecs)
+        scenarios += [wrap_vector(v) for v in big_requests()]
     ctx.stage("generate")
     accepted, scs, lines = connlib.run_scenarios(ctx, scenarios, "c03")
     groups = connlib.report(ctx, accepted, scs, lines, None)
